@@ -11,7 +11,20 @@ sys.path.insert(0, os.path.dirname(os.path.dirname(os.path.abspath(__file__))))
 import harness as H
 from props.common import merge
 
-TRS_STRS = ['154n97w14', '1s2e01', 'XXXzXXXzXX', '___z___z__', '154nXXXz01', 'junk', '', None, '154n97w__', '999n999e99']
+TRS_STRS = ['154n97w14', '1s2e01', 'XXXzXXXzXX', '___z___z__', '154nXXXz01', 'junk', '', None, '154n97w__', '999n999e99',
+            '154N97W14', '154n97wXX', '154n97wxx', 'xxxzXXXz14', '___Z___z01', '1S2E01']
+# hand-written histories that run first: (history, probe)
+CORPUS = [
+    ([('construct', 154, 97, 14), ('master', 's', 'e')], ('construct', 154, 97, 14)),
+    ([('master', 's', 'e'), ('construct', 154, '97', 14), ('master', 'n', 'w')], ('construct', 154, '97', 14)),
+    ([('trs', '154n97wXX')], ('trs', '154n97wxx')),
+    ([('trs', '154n97wxx')], ('trs', '154n97wXX')),
+    ([('tract', 'NE/4', '154n97wxx', '')], ('parse', 'T154N-R97W NE/4 of the land', '')),
+    ([('trs', '154N97W14'), ('todict', '154n97w14'), ('mutate',)], ('trs', '154N97W14')),
+    ([('parse', 'T154-R97 Sec 14: NE/4', ''), ('master', 's', 'e')], ('parse', 'T154-R97 Sec 14: NE/4', '')),
+    ([('find', 'T154-R97 Sec 14: NE/4'), ('master', 's', 'e')], ('find', 'T154-R97 Sec 14: NE/4')),
+]
+
 TEXTS = ['T154N-R97W Sec 14: NE/4, Sec 15: W/2', 'T154-R97 Sec 14: NE/4', 'T1-R2 Sec 1: Lots 1 - 3', 'NE/4 of Section 14, T154N-R97W', 'TI54N-R97W Sec 14: NE/4',
          'T15N-RlOW Sec 1: ALL', 'Township 7 South, Range 9 East, Sec 3: S/2', 'no plss']
 CONFIGS = ['', 'parse_qq', 'ocr_scrub', 's,e', 'segment', 'clean_qq,parse_qq']
@@ -150,10 +163,21 @@ def run(tier, mode):
     n = 60 if tier == 'quick' else 800
     tools_dir = os.path.dirname(os.path.dirname(os.path.abspath(__file__)))
     for i in range(n):
-        ops = [gen_op(r) for _ in range(r.randint(2, 9 if tier == 'quick' else 25))]
-        probe = gen_op(r)
-        while probe[0] in ('clear', 'use', 'master', 'mutate'):
-            probe = gen_op(r)
+        if i < len(CORPUS):
+            ops, probe = [tuple(o) for o in CORPUS[i][0]], tuple(CORPUS[i][1])
+        else:
+            ops = [gen_op(r) for _ in range(r.randint(2, 9 if tier == 'quick' else 25))]
+            earlier = [o for o in ops if o[0] not in ('clear', 'use', 'master', 'mutate')]
+            k = r.random()
+            if earlier and k < 0.4:          # the probe repeats an earlier operation (memoisation keyed too coarsely)
+                probe = r.choice(earlier)
+            elif k < 0.55 and any(o[0] in ('trs', 'todict') and isinstance(o[1], str) and o[1] for o in ops):   # ... or differs from one only in case
+                o = r.choice([o for o in ops if o[0] in ('trs', 'todict') and isinstance(o[1], str) and o[1]])
+                probe = ('trs', r.choice([o[1].swapcase(), o[1].lower(), o[1].upper()]))
+            else:
+                probe = gen_op(r)
+                while probe[0] in ('clear', 'use', 'master', 'mutate'):
+                    probe = gen_op(r)
         # reset the process-wide state
         pytrs.TRS._clear_cache()
         pytrs.TRS._USE_CACHE = True
